@@ -122,6 +122,21 @@ def stats_check(tr, fetches, metric, mode, fin, rows, end_seq):
             if best["trial"] not in attain:
                 out.append(V("C17", "R3.best_config", tr, "Tuner.best_config() -> trial %s, optimum %r (%s) attained by %s" % (
                     best["trial"], opt, mode, sorted(attain)), end_seq, mode=mode))
+    for b in fin.get("best_by_metric") or []:
+        name = tr.scen["metrics"][b["i"]]
+        modes = tr.scen["scheduler"].get("modes", mode)
+        md = modes if isinstance(modes, str) else modes[b["i"]]
+        mv = [(tid, res[name]) for tid, res in handed if _num(res.get(name))]
+        if not mv:
+            continue
+        if "error" in b:
+            out.append(V("C17", "R3.best_config_raises", tr, "Tuner.best_config(metric %s by %s) raised %s" % (name, b["by"], b["error"]), end_seq))
+            continue
+        opt = min(v for _, v in mv) if md == "min" else max(v for _, v in mv)
+        attain = {tid for tid, v in mv if v == opt}
+        if b["trial"] not in attain:
+            out.append(V("C17", "R3.best_config", tr, "Tuner.best_config(metric %s, given by %s) -> trial %s, optimum %r (%s) attained by %s" % (
+                name, b["by"], b["trial"], opt, md, sorted(attain)), end_seq, mode=md, metric_index=b["i"]))
     expb = fin.get("exp_best")
     rvals = [(r.get("trial_id"), r[metric]) for r in rows if _num(r.get(metric))]
     if rvals and expb is not None and tr.exception is None:
